@@ -84,6 +84,51 @@ func (sk *storeKey) clone(newId uint64) *storeKey {
 	}
 }
 
+// Provides the version stamp that WATCH remembers and EXEC compares. The object id alone only
+// changes when a key is created, replaced or moved, so the stamp also covers the expiry and the
+// content: a change made in place (push, pop, field or member update, EXPIRE, PERSIST ...)
+// gives a different stamp as well. A stamp is never zero; zero stands for a missing key.
+func (sk *storeKey) watchStamp() uint64 {
+	const prime = 1099511628211
+	hashBytes := func(h uint64, b []byte) uint64 {
+		for _, c := range b {
+			h = (h ^ uint64(c)) * prime
+		}
+		// separator, so that ("ab","c") and ("a","bc") differ
+		return (h ^ 0xff) * prime
+	}
+
+	h := uint64(14695981039346656037)
+	h = (h ^ sk.id) * prime
+	h = (h ^ uint64(sk.flags)) * prime
+	h = (h ^ uint64(sk.expiresAt.UnixNano())) * prime
+
+	switch payload := sk.payload.(type) {
+	case []byte:
+		h = hashBytes(h, payload)
+	case *storeList:
+		for item := payload.head; item != nil; item = item.next {
+			h = hashBytes(h, item.element)
+		}
+	case *redisDict:
+		// the bucket order is not part of the value: combine the entries commutatively
+		sum := uint64(0)
+		for it := payload.createIterator(); it.next(); {
+			e := hashBytes(14695981039346656037, []byte(it.key))
+			if str, isStr := it.value.(string); isStr {
+				e = hashBytes(e, []byte(str))
+			}
+			sum += e
+		}
+		h = (h ^ sum) * prime
+	}
+
+	if h == 0 {
+		h = 1
+	}
+	return h
+}
+
 func (sk *storeKey) getStringBytes() []byte {
 	if flagHasOne(sk.flags, FLAG_KEY_TYPE_STRING) {
 		return sk.payload.([]byte)
